@@ -51,6 +51,15 @@ SHORT = {
  'C17b': '`build_exclude_text`: patterns that are blank after `trim()` are skipped (a whitespace-only pattern is dropped from the command line)',
  'C18b': '`DevInputWriter::send`: an empty batch returns early without writing the SYN_REPORT',
  'C19c': '`newly_press`: a physically pressed modifier that a mapping in effect already outputs is passed through as well (second `Pressed` for a key that is down)',
+ 'C01c': '`newly_release`: the reverse countdown over the mappings in effect became a forward loop that removes while it walks (the mapping after a removed one is skipped)',
+ 'C02d': '`add_new_mapping`: `release_absorbed_keys` moved after the pass that consumes the trigger keys (a trigger key handed back to pass-through stays down)',
+ 'C03d': '`add_new_mapping`: a non-modifier output key that is already down is left alone instead of released and pressed again (no press event in the firing step)',
+ 'C07c': '`add_new_mapping`: a Special repeat with an empty key list is treated like Normal (nothing is lifted when it fires)',
+ 'C10c': 'per-device loop: an interrupted `poll` releases everything and resets the mapper ("suspend/resume guard")',
+ 'C12c': 'per-device loop: tablet events of one notification are coalesced, only a net change of the mode acts (On+Off in one wake-up releases nothing)',
+ 'C17c': '`escape_one_char`: every Unicode whitespace character is written as `\\s` (U+00A0 etc. come back as a plain space)',
+ 'C18c': '`DevInputReader::next`: an unknown key code is reported as `UNKNOWN` instead of being skipped',
+ 'C20c': 'per-device loop: on a failed keyboard read the held keys are released (a write after the failure, its own error discarded) before the error is returned',
 }
 rows = []
 for s in sorted(os.listdir('/verif/seeded')):
